@@ -985,6 +985,10 @@ fn gen_damage(seed: u64, tier: &str) -> GenOut {
         let bufs = &bufs_set[bit % 5];
         g.push("crc.bitflip.check", format!("layers.crc data={} check={} ae2=0 inner=3 bufs={} dmg=crc", hex(&msg), good ^ (1u32 << bit), list(bufs)));
         g.push("crc.ae2", format!("layers.crc data={} check={} ae2=1 inner=3 bufs={}", hex(&msg), good ^ (1u32 << bit), list(bufs)));
+        if bit < 5 {
+            // a declared CRC of exactly zero is a checksum like any other
+            g.push("crc.zero-check", format!("layers.crc data={} check=0 ae2=0 inner=3 bufs={} dmg=crc", hex(&msg), list(bufs)));
+        }
     }
     for cut in 0..msg.len() {
         g.push("crc.truncated", format!("layers.crc data={} check={good} ae2=0 inner=2 bufs=0,4 dmg=data", hex(&msg[..cut])));
